@@ -12,13 +12,26 @@
    program, and dropping the entries it puts in the classes Unreachable / UnusedFn /
    NeverRead does not change `Lang.run_impl` (theorems prune_sound_partial_xxx).  The extracted
    `plan_ok` is run on the plan the real analysis produced for every generated program
-   (lib/props/c03.py); entries outside the three classes (flow-sensitive dead stores,
-   right-hand sides with calls or with operators applied to variables) are counted as
-   "covered by the plan-vs-no-plan oracle only".
+   (lib/props/c03.py).
+
+   ROUND 2 adds the fourth class, FLOW-SENSITIVE DEAD STORES (an assignment / re-declaration
+   whose value is overwritten before it is read along every path: across branches, loops with
+   comot/next, nested blocks, calls, callees that read or write captured variables,
+   recursion).  `LiveCheck.ds_ok` is a verified backward liveness on the structured AST
+   (post-fixpoint check at loop heads, a checked table of what each function can look up in
+   its callers' scopes, callee writes never kill); theorem C03_prune_dead_stores_sound is
+   proved by a relational simulation over ALL of Lang.run_impl (stage S5 of the plan: no
+   construct is excluded).  What stays covered by the plan-vs-no-plan oracle only: pruned
+   FIRST declarations of a local that is still mentioned in dead code or in an unused
+   function, right-hand sides that are not total pure expressions (calls to pure built-ins,
+   operators applied to variables), programs with unresolved names.  Like the never-read
+   theorem, the dead-store theorem excludes runs of the less-pruned program that end in
+   fuel exhaustion or in one of the three variable-missing panic sites (tol_ending).
 
    Only statements, each closed by [exact] of a lemma of proofs/PlanProofs.v. *)
 From Coq Require Import ZArith List Bool.
-Require Import NS.theories.F64 NS.theories.Lang NS.theories.PlanCheck NS.proofs.PlanProofs.
+Require Import NS.theories.F64 NS.theories.Lang NS.theories.PlanCheck NS.proofs.PlanProofs
+               NS.theories.LiveCheck NS.proofs.LiveProofs.
 Import ListNotations.
 Open Scope Z_scope.
 
@@ -263,4 +276,215 @@ Example ex_kept_decl_verdict :
   w_aug w = [0] /\ v_checked (w_main w) = true /\ w_checked_aug w = true /\
   v_residual (w_main w) = ([], []) /\
   v_stmt (plan_ok ex_kept_decl [1] []) = [(1, CNeverReadMayFail)].
+Proof. vm_compute. repeat split; reflexivity. Qed.
+
+(* ======================================================================================= *)
+(* ROUND 2 - class 4: flow-sensitive dead stores                                           *)
+
+(* `ds_ok prog pa acc` (boolean, extracted, evaluated on real plans): every statement of plan
+   pa whose id is in acc is a store to a local of the running activation that already has its
+   slot, the local is not live after the store, and the right-hand side is a total pure
+   expression.  Then the run that skips all of pa equals the run that still executes acc. *)
+Theorem C03_prune_dead_stores_sound :
+  forall prog ss fs acc eps fuel o e,
+    ds_ok prog (Some (ss, fs)) acc = true ->
+    run_impl (Some (filter (fun i => negb (memz i acc)) ss, fs)) eps fuel prog = (o, e) ->
+    tol_ending e = false ->
+    run_impl (Some (ss, fs)) eps fuel prog = (o, e).
+Proof. exact ds_sound. Qed.
+Print Assumptions C03_prune_dead_stores_sound.
+
+(* the four classes together: what the check evaluates on every real plan *)
+Theorem C03_plan_ok3_sound :
+  forall prog ss fs eps fuel o e,
+    v_checked (x_main (plan_ok3 prog ss fs)) = true ->
+    x_checked (plan_ok3 prog ss fs) = true ->
+    run_impl (Some (x_residual (plan_ok3 prog ss fs))) eps fuel prog = (o, e) ->
+    tol_ending e = false ->
+    run_impl (Some (ss, fs)) eps fuel prog = (o, e).
+Proof. exact plan_ok3_sound_lemma. Qed.
+Print Assumptions C03_plan_ok3_sound.
+
+(* every entry in one of the four classes: pruning does not change the program *)
+Theorem C03_prune_sound_four_classes :
+  forall prog ss fs eps fuel o e,
+    v_checked (x_main (plan_ok3 prog ss fs)) = true ->
+    x_checked (plan_ok3 prog ss fs) = true ->
+    x_residual (plan_ok3 prog ss fs) = ([], []) ->
+    run_impl None eps fuel prog = (o, e) ->
+    tol_ending e = false ->
+    run_impl (Some (ss, fs)) eps fuel prog = (o, e).
+Proof. exact prune_dead_stores_sound_lemma. Qed.
+Print Assumptions C03_prune_sound_four_classes.
+
+(* ---- non-vacuity: real ASTs (harness dump) and the plans the real analysis produced ---- *)
+
+(* make acc get "a"  make i get 0
+   jasi (i small pass 3) start  shout(acc)  acc get "b"  i get i add 1  end
+   acc get "c"   acc get "d"   shout(acc)                                   plan S 6 F
+   statement 4 is LOOP-CARRIED (read by the next iteration): not a dead store;
+   statement 6 is overwritten by 7 before any read: a dead store. *)
+Definition ex_loop : list stmt :=
+  [SMake (Some 0) [97;99;99] (Some 0) (EStr [97]);
+   SMake (Some 1) [105] (Some 1) (ENum (of_bits 0));
+   SLoop (Some 2) (EBin OLt (EVar [105] (Some 1)) (ENum (of_bits 4613937818241073152)))
+     [SExpr (Some 3) (ECall (EVar sh None) [(EVar [97;99;99] (Some 0))] None);
+      SSet (Some 4) [97;99;99] (Some 0) (EStr [98]);
+      SSet (Some 5) [105] (Some 1) (EBin Add (EVar [105] (Some 1)) (ENum (of_bits 4607182418800017408)))];
+   SSet (Some 6) [97;99;99] (Some 0) (EStr [99]);
+   SSet (Some 7) [97;99;99] (Some 0) (EStr [100]);
+   SExpr (Some 8) (ECall (EVar sh None) [(EVar [97;99;99] (Some 0))] None)].
+
+Example ex_loop_dead_store : ds_ok ex_loop (Some ([6], [])) [6] = true.
+Proof. vm_compute. reflexivity. Qed.
+Example ex_loop_carried_is_live : ds_ok ex_loop (Some ([4], [])) [4] = false.
+Proof. vm_compute. reflexivity. Qed.
+Example ex_loop_last_store_is_live : ds_ok ex_loop (Some ([7], [])) [7] = false.
+Proof. vm_compute. reflexivity. Qed.
+Example ex_loop_verdict :
+  let x := plan_ok3 ex_loop [6] [] in
+  v_checked (x_main x) = true /\ x_checked x = true /\ x_acc x = [6] /\ x_residual x = ([], []) /\
+  v_stmt (x_main x) = [(6, CDeadStore)].
+Proof. vm_compute. repeat split; reflexivity. Qed.
+Example ex_loop_runs :
+  run_impl None eps0 40 ex_loop = ([VStr [97]; VStr [98]; VStr [98]; VStr [100]], Done) /\
+  run_impl (Some ([6], [])) eps0 40 ex_loop = run_impl None eps0 40 ex_loop /\
+  (* pruning the loop-carried store is observable *)
+  run_impl (Some ([4], [])) eps0 40 ex_loop = ([VStr [97]; VStr [97]; VStr [97]; VStr [100]], Done).
+Proof. vm_compute. repeat split; reflexivity. Qed.
+
+(* make acc get "a"  make i get 0
+   jasi (i small pass 2) start
+     acc get "b"                                          <- dead on both paths
+     if to say (i pass 0) start  i get i add 1  next  end    (next: back to the loop head)
+     acc get "c"  shout(acc)  i get i add 1
+   end
+   shout(i)                                                              plan S 3 F *)
+Definition ex_loop_next : list stmt :=
+  [SMake (Some 0) [97;99;99] (Some 0) (EStr [97]);
+   SMake (Some 1) [105] (Some 1) (ENum (of_bits 0));
+   SLoop (Some 2) (EBin OLt (EVar [105] (Some 1)) (ENum (of_bits 4611686018427387904)))
+     [SSet (Some 3) [97;99;99] (Some 0) (EStr [98]);
+      SIf (Some 4) (EBin OGt (EVar [105] (Some 1)) (ENum (of_bits 0)))
+        [SSet (Some 5) [105] (Some 1) (EBin Add (EVar [105] (Some 1)) (ENum (of_bits 4607182418800017408)));
+         SNext (Some 6)] None;
+      SSet (Some 7) [97;99;99] (Some 0) (EStr [99]);
+      SExpr (Some 8) (ECall (EVar sh None) [(EVar [97;99;99] (Some 0))] None);
+      SSet (Some 9) [105] (Some 1) (EBin Add (EVar [105] (Some 1)) (ENum (of_bits 4607182418800017408)))];
+   SExpr (Some 10) (ECall (EVar sh None) [(EVar [105] (Some 1))] None)].
+
+Example ex_loop_next_dead_store : ds_ok ex_loop_next (Some ([3], [])) [3] = true.
+Proof. vm_compute. reflexivity. Qed.
+Example ex_loop_next_live : ds_ok ex_loop_next (Some ([7], [])) [7] = false.
+Proof. vm_compute. reflexivity. Qed.
+
+(* make x get 1  make y get 2
+   do rd() start return y end
+   do wr(c) start if to say (c) start x get 7 end  return 0 end
+   x get 3      <- dead: overwritten by `x get 5`; rd() does not read x
+   y get 4      <- LIVE only through the callee rd(), which reads the captured y
+   shout(rd())
+   x get 5      <- LIVE: wr(false) may write x but need not (a callee's write is no kill)
+   wr(false)  shout(x)
+   y get 6      <- dead: never read again
+   x get 8  shout(x)                                                      plan S 8 14 F *)
+Definition ex_calls : list stmt :=
+  [SMake (Some 0) [120] (Some 0) (ENum (of_bits 4607182418800017408));
+   SMake (Some 1) [121] (Some 1) (ENum (of_bits 4611686018427387904));
+   SFun (Some 2) [114;100] [] [SRet (Some 3) (Some (EVar [121] (Some 1)))] (Some 1) 0 0;
+   SFun (Some 4) [119;114] [[99]]
+     [SIf (Some 5) (EVar [99] (Some 2)) [SSet (Some 6) [120] (Some 0) (ENum (of_bits 4619567317775286272))] None;
+      SRet (Some 7) (Some (ENum (of_bits 0)))] (Some 2) 2 1;
+   SSet (Some 8) [120] (Some 0) (ENum (of_bits 4613937818241073152));
+   SSet (Some 9) [121] (Some 1) (ENum (of_bits 4616189618054758400));
+   SExpr (Some 10) (ECall (EVar sh None) [(ECall (EVar [114;100] None) [] (Some 1))] None);
+   SSet (Some 11) [120] (Some 0) (ENum (of_bits 4617315517961601024));
+   SExpr (Some 12) (ECall (EVar [119;114] None) [(EBool false)] (Some 2));
+   SExpr (Some 13) (ECall (EVar sh None) [(EVar [120] (Some 0))] None);
+   SSet (Some 14) [121] (Some 1) (ENum (of_bits 4618441417868443648));
+   SSet (Some 15) [120] (Some 0) (ENum (of_bits 4620693217682128896));
+   SExpr (Some 16) (ECall (EVar sh None) [(EVar [120] (Some 0))] None)].
+
+Example ex_calls_dead_stores : ds_ok ex_calls (Some ([8; 14], [])) [8; 14] = true.
+Proof. vm_compute. reflexivity. Qed.
+(* live through the callee's capture read *)
+Example ex_calls_capture_read_keeps_live : ds_ok ex_calls (Some ([9], [])) [9] = false.
+Proof. vm_compute. reflexivity. Qed.
+(* HISTORICAL DEFECT 1 (callee capture write treated as a kill): the checker rejects it *)
+Example ex_calls_capture_write_is_no_kill : ds_ok ex_calls (Some ([11], [])) [11] = false.
+Proof. vm_compute. reflexivity. Qed.
+Example ex_calls_summary : mk_rt (Some ([8; 14], [])) ex_calls = [(1, [1]); (2, [])].
+Proof. vm_compute. reflexivity. Qed.
+Example ex_calls_runs :
+  run_impl (Some ([8; 14], [])) eps0 40 ex_calls = run_impl None eps0 40 ex_calls /\
+  run_impl None eps0 40 ex_calls = ([VNum (of_Z 4); VNum (of_Z 5); VNum (of_Z 8)], Done) /\
+  run_impl (Some ([9], [])) eps0 40 ex_calls = ([VNum (of_Z 2); VNum (of_Z 5); VNum (of_Z 8)], Done) /\
+  run_impl (Some ([11], [])) eps0 40 ex_calls = ([VNum (of_Z 4); VNum (of_Z 3); VNum (of_Z 8)], Done).
+Proof. vm_compute. repeat split; reflexivity. Qed.
+
+(* recursion: the locals of the suspended activations are other slots
+   do f(n) start
+     make t get "p"   t get "q"
+     if to say (n pass 0) start  t get "r"  shout(f(n minus 1))  t get "s"  end
+     t get "u"  return t
+   end
+   shout(f(2))                                                           plan S 2 4 6 F *)
+Definition ex_rec : list stmt :=
+  [SFun (Some 0) [102] [[110]]
+     [SMake (Some 1) [116] (Some 1) (EStr [112]);
+      SSet (Some 2) [116] (Some 1) (EStr [113]);
+      SIf (Some 3) (EBin OGt (EVar [110] (Some 0)) (ENum (of_bits 0)))
+        [SSet (Some 4) [116] (Some 1) (EStr [114]);
+         SExpr (Some 5) (ECall (EVar sh None)
+           [(ECall (EVar [102] None) [(EBin Minus (EVar [110] (Some 0)) (ENum (of_bits 4607182418800017408)))] (Some 1))] None);
+         SSet (Some 6) [116] (Some 1) (EStr [115])] None;
+      SSet (Some 7) [116] (Some 1) (EStr [117]);
+      SRet (Some 8) (Some (EVar [116] (Some 1)))] (Some 1) 0 2;
+   SExpr (Some 9) (ECall (EVar sh None) [(ECall (EVar [102] None) [(ENum (of_bits 4611686018427387904))] (Some 1))] None)].
+
+Example ex_rec_dead_stores : ds_ok ex_rec (Some ([2; 4; 6], [])) [2; 4; 6] = true.
+Proof. vm_compute. reflexivity. Qed.
+Example ex_rec_live : ds_ok ex_rec (Some ([7], [])) [7] = false.
+Proof. vm_compute. reflexivity. Qed.
+Example ex_rec_runs :
+  run_impl (Some ([2; 4; 6], [])) eps0 60 ex_rec = run_impl None eps0 60 ex_rec /\
+  run_impl None eps0 60 ex_rec = ([VStr [117]; VStr [117]; VStr [117]], Done).
+Proof. vm_compute. repeat split; reflexivity. Qed.
+
+(* ---- the checker REJECTS the historical defect plans ---------------------------------- *)
+(* defect 1 (liveness treated a callee's possible write as a kill), plan S 4 *)
+Example C03_checker_rejects_callee_kill_plan :
+  ds_ok ex_callee_kill (Some ([4], [])) [4] = false /\
+  x_acc (plan_ok3 ex_callee_kill [4] []) = [] /\ x_residual (plan_ok3 ex_callee_kill [4] []) = ([4], []).
+Proof. vm_compute. repeat split; reflexivity. Qed.
+(* defect 16 (a call whose callee assigns a captured variable was classified removable), plan S 4 *)
+Example C03_checker_rejects_callee_write_plan :
+  ds_ok ex_callee_write (Some ([4], [])) [4] = false /\
+  x_residual (plan_ok3 ex_callee_write [4] []) = ([4], []).
+Proof. vm_compute. repeat split; reflexivity. Qed.
+(* defect 3 (operators on dynamically typed operands classified PureNoTrap), plan S 3 *)
+Example C03_checker_rejects_typemis_plan :
+  ds_ok ex_typemis (Some ([3], [])) [3] = false /\
+  x_residual (plan_ok3 ex_typemis [3] []) = ([3], []).
+Proof. vm_compute. repeat split; reflexivity. Qed.
+
+(* defect found in round 2 (key callee-capture-read-after-own-write): liveness.rs summarised a block's
+   `x get twice()` as "defines x" BEFORE recording the callee's capture read of x, so x was not
+   live into the block and the store in the predecessor block was pruned.
+   make x get "one"  do twice() start return "{x}{x}" end
+   x get "five"  if to say (true) start  x get twice()  shout("@1@" add to_string(x))  end   plan S 3 F
+   The model shows the plan changes the output; the checker leaves the entry in the residual. *)
+Definition ex_read_after_write : list stmt :=
+  [SMake (Some 0) [120] (Some 0) (EStr [111;110;101]);
+   SFun (Some 1) [116;119;105;99;101] [] [SRet (Some 2) (Some (EInterp [SegVar [120] (Some 0); SegVar [120] (Some 0)]))] (Some 1) 0 0;
+   SSet (Some 3) [120] (Some 0) (EStr [102;105;118;101]);
+   SIf (Some 4) (EBool true)
+     [SSet (Some 5) [120] (Some 0) (ECall (EVar [116;119;105;99;101] None) [] (Some 1));
+      SExpr (Some 6) (ECall (EVar sh None) [(EVar [120] (Some 0))] None)] None].
+
+Example C03_checker_rejects_read_after_write_plan :
+  ds_ok ex_read_after_write (Some ([3], [])) [3] = false /\
+  x_residual (plan_ok3 ex_read_after_write [3] []) = ([3], []) /\
+  run_impl None eps0 20 ex_read_after_write = ([VStr [102;105;118;101;102;105;118;101]], Done) /\
+  run_impl (Some ([3], [])) eps0 20 ex_read_after_write = ([VStr [111;110;101;111;110;101]], Done).
 Proof. vm_compute. repeat split; reflexivity. Qed.
